@@ -16,4 +16,4 @@ for a in "$@"; do
 done
 cd kani && ( ulimit -v $((20*1024*1024)); CARGO_NET_OFFLINE=true /usr/bin/time -v timeout ${CAP:-1500} cargo kani -Z stubbing -Z unstable-options --no-assertion-reach-checks $flags $pb --harness scenarios::$h --exact --target-dir /verif/.build/dev/t-$h > /verif/.build/dev/$h.log 2>&1 )
 rm -rf /verif/.build/dev/t-$h
-grep -E "^VERIFICATION|Verification Time|Failed Checks|\*\* |Maximum resident|Elapsed|error" /verif/.build/dev/$h.log | head -20
+grep -E "^VERIFICATION|Verification Time|Failed Checks|\*\* |Maximum resident|Elapsed \(wall|^error" /verif/.build/dev/$h.log | head -20
